@@ -180,12 +180,14 @@ def run_params(ctx, plist):
 def gen_params(ctx):
     rng = ctx.rng("c08")
     out = []
-    for k in range(4 if ctx.quick else 24):
-        double = bool(k % 2)
-        force = {"noise": 0.002, "nmatch": 0, "nta": [0, 1, 2, 0][k % 4] if k >= 2 else 0, "nx": int(rng.integers(12, 18)), "nt": int(rng.integers(1, 3)), "var_mode": "float"}
+    # deterministic matrix of (double, splices, fixed) so that every unpacking branch of both routines is exercised in every run
+    matrix = [(False, 0, None), (True, 0, None), (False, 2, None), (True, 2, None), (False, 1, "alpha"), (True, 1, "alpha"), (False, 2, "alpha"), (True, 2, "alpha+gamma")]
+    for k in range(len(matrix) if ctx.quick else 4 * len(matrix)):
+        double, nta, fix = matrix[k % len(matrix)]
+        force = {"noise": 0.002, "nmatch": 0, "nta": nta, "nx": int(rng.integers(14, 19)), "nt": int(rng.integers(2, 4)) if nta == 2 else int(rng.integers(1, 3)), "var_mode": "float"}
         p = calib.random_params(rng, double, quick=True, **force)
-        if k % 8 == 5 and not double:
-            p["fix"], p["fix_var"] = "alpha", 1e-8
+        if fix:
+            p["fix"], p["fix_var"] = fix, 1e-8
         if k < 4:
             p["sampling"] = True
         out.append(p)
